@@ -106,5 +106,11 @@ example : interpFill (some ((0 : ℚ), 15 / 2)) [1, 2, 4] [10, 20, 60] 5 = some 
 example : interpFill (none : Option (ℚ × ℚ)) [1, 2, 4] [10, 20, 60] 5 = none := by decide +kernel
 example : ([1, 2, 4] : List ℚ).Pairwise (· < ·) := by decide +kernel
 
+/-- finding S60-C03, stated by the accessor model as the code has it (`applyLimits_inactive`): an UPPER limit of zero is taken for
+"no limits" — on a branch that holds the origin the whole branch comes back, not the single point inside `(-∞, 0]` -/
+theorem applyLimits_upper_zero_witness :
+    applyLimits ([0, 1, 2] : List ℚ) (some (none, some 0)) = [0, 1, 2] ∧ ([0, 1, 2] : List ℚ).filter (· ≤ 0) = [0] := by
+  decide +kernel
+
 end Fill
 end PgVerif.C03
